@@ -1253,6 +1253,9 @@ def state_scan(ctx, cnames):
                                   'self.%s memoises under the key %s, which leaves out %s: a later query is answered with an earlier one\'s value' % (fld, fmt(mt[1])[:60], ', '.join(mt[2])),
                                   key='C18.memo|state|%s|%s' % (m.qn, fld))
                     continue
+                if mt is not None and mt[0] == 'other' and 'many-to-one' in mt[1]:
+                    ctx.undecided('C18.memo', 'stateless components keep no state between calls (%s)' % m.qn, m.site(n), 'self.%s: %s' % (fld, mt[1]))
+                    continue
                 if mt is not None and mt[0] == 'other' and 'cursor' in mt[1]:
                     # a table of per-key cursors advanced in place: whether answers still equal a fresh lookup depends on how the code rewinds - not decided here
                     ctx.undecided('C18.memo', 'stateless components keep no state between calls (%s)' % m.qn, m.site(n), 'self.%s: %s' % (fld, mt[1]))
@@ -1306,6 +1309,11 @@ def closure_memos(ctx):
                     n += 1
                     T_ = stores[0].value.id
                     key_names = {x.id for x in ast.walk(stores[0].slice) if isinstance(x, ast.Name)}
+                    for _ in range(3):
+                        # (a key prepared in locals first: key = (type(self), rates, ...))
+                        for s in ast.walk(W):
+                            if isinstance(s, ast.Assign) and len(s.targets) == 1 and isinstance(s.targets[0], ast.Name) and s.targets[0].id in key_names:
+                                key_names |= {x.id for x in ast.walk(s.value) if isinstance(x, ast.Name)}
                     self_name = W.args.args[0].arg if W.args.args else None
                     reads_self = f.cls is not None and not f.is_static and any(isinstance(x, ast.Attribute) and isinstance(x.value, ast.Name) and x.value.id == 'self'
                                                                                for x in ast.walk(f.node))
